@@ -116,15 +116,15 @@ example : ∃ st, Reach { badSys with locked := true } (1, 0) st ∧ finished st
 
 /-! ### What the code is (regenerated table) -/
 
-/-- The engine has exactly one lock. -/
-theorem one_lock : OPM.Gen.LockTable.locks = ["_lock"] := by decide
+/-- The engine has exactly one lock (the model has one; its name does not matter). -/
+theorem one_lock : OPM.Gen.LockTable.locks.length = 1 := by decide
 
 /-- The execute phase of `Engine.tick` — tracking, interpreter, calculated tags, command manager, tag notification,
-writing the process image — is under the lock, in this order, and nothing of the tick follows it outside the lock. -/
+writing the process image — is under the lock (other sub-calls may be under it too), and once the tick has taken the
+lock no sub-call of it runs outside the lock again. -/
 theorem tick_execute_phase_under_lock :
-    (OPM.Gen.LockTable.tickCalls.filter (·.2)).map (·.1) =
-      ["tracking.tick", "interpreter.tick", "update_calculated_tags", "command_manager.tick", "notify_tag_updates",
-       "write_process_image"] ∧
+    ["tracking.tick", "interpreter.tick", "update_calculated_tags", "command_manager.tick", "notify_tag_updates",
+     "write_process_image"].all (fun l => OPM.Gen.LockTable.tickCalls.lookup l == some true) = true ∧
     (OPM.Gen.LockTable.tickCalls.dropWhile (fun c => !c.2)).all (·.2) = true := by decide
 
 /-- The places inside the sub-calls where a tick spends its time — the hardware read, a UOD command's exec function,
@@ -142,13 +142,13 @@ theorem command_and_write_phase_under_lock :
      "notify_tag_updates", "write_process_image", "hwl.write_batch"].all
       (fun l => tickFlag OPM.Gen.LockTable.tickCalls OPM.Gen.LockTable.nested l == some true) = true := by decide
 
-/-- The five request entry points are the ones the message handlers call. -/
+/-- The request entry points the message handlers call include the five known ones (a new entry point is welcome —
+it only has to be locked, see the next theorem). -/
 theorem entry_points :
-    OPM.Gen.LockTable.entries.map (·.name) =
-      ["set_method", "execute_control_command_from_user", "inject_code", "cancel_instruction", "force_instruction"] := by
-  decide
+    ["set_method", "execute_control_command_from_user", "inject_code", "cancel_instruction", "force_instruction"].all
+      (fun n => OPM.Gen.LockTable.entries.any (·.name == n)) = true := by decide
 
-/-- **Every request entry point runs its whole body under the tick's lock and touches no engine state outside it.**
+/-- **Every request entry point does its work under the tick's lock and touches no engine state outside it.**
 (Fails to compile when an entry point does not — then the hypothesis of `locked_request_serializes` is not met for
 it and `unlocked_request_not_serial` applies.) -/
 theorem every_entry_point_locked :
@@ -164,5 +164,12 @@ theorem c40 (e : Entry) (he : e ∈ OPM.Gen.LockTable.entries) (S : Sys σ) (hS 
   have := hall e he
   simp only [Bool.and_eq_true] at this
   exact locked_request_serializes S s₀ (by rw [hS, this.1]) hc h hf
+
+/-- When the part of the tick outside the lock does nothing the requests can see (`S.pre = []` — what the table
+reports as `prologueShared = []`), no commutation hypothesis is needed at all. -/
+theorem c40_no_prologue (e : Entry) (he : e ∈ OPM.Gen.LockTable.entries) (S : Sys σ) (hS : S.locked = e.bodyLocked)
+    (hp : S.pre = []) (s₀ : σ) {st : St σ} (h : Reach S s₀ st) (hf : finished st) :
+    st.s = tickAll S (reqAll S s₀) ∨ st.s = reqAll S (tickAll S s₀) :=
+  c40 e he S hS s₀ (by intro f hf'; rw [hp] at hf'; cases hf') h hf
 
 end OPM.C40
